@@ -1,4 +1,7 @@
 import AspireModel.Model.Num
 import AspireModel.Model.Wire
 import AspireModel.Model.Weights
+import AspireModel.Model.Rows
+import AspireModel.Model.Tempering
+import AspireModel.Model.Schedule
 import AspireModel.Driver
